@@ -118,7 +118,7 @@ pub fn gen_miri() -> i32 {
     let mut cfg = GenCfg::draw(&mut rng, &[4]);
     cfg.density = 1;
     cfg.max_coef_sum = 2000;
-    let fl = Flavour::StdPlus { umv_unlimited: false, layers: None };
+    let fl = Flavour::StdPlus { umv_unlimited: false, layers: None, hdr: None };
     let mut pics = Vec::new();
     pics.push(encode(&gen_textured_intra(&mut rng, &cfg, fl.clone(), 8, 8, 1)).0);
     pics.push(encode(&gen_picture(&mut rng, &cfg, fl.clone(), PType::P, 8, 8, 2)).0);
